@@ -523,6 +523,37 @@ fn define_inherent_impl(
         );
     }
 
+    // A method name may be defined only once for a type: neither twice for the same receiver
+    // type nor by a generic impl and an impl for one of its instances (the dot form and the
+    // path form would otherwise pick different ones).
+    let constr_of = |k: &env::InherentImplKey| match k {
+        env::InherentImplKey::Constr(name) => Some(name.clone()),
+        env::InherentImplKey::Exact(ty) => super::util::try_constr_name(ty),
+    };
+    let this_constr = constr_of(&key);
+    for (other_key, other_def) in env.current().trait_env.inherent_impls.iter() {
+        let overlaps = *other_key == key
+            || (this_constr.is_some()
+                && constr_of(other_key) == this_constr
+                && (matches!(other_key, env::InherentImplKey::Constr(_))
+                    || matches!(key, env::InherentImplKey::Constr(_))));
+        if !overlaps {
+            continue;
+        }
+        for name in methods_to_add.keys() {
+            if other_def.methods.contains_key(name) {
+                diagnostics.push(Diagnostic::new(
+                    Stage::Typer,
+                    Severity::Error,
+                    format!(
+                        "Method {} is already defined for type {:?} by another impl",
+                        name, for_ty
+                    ),
+                ));
+            }
+        }
+    }
+
     // Insert or extend the impl def
     let impl_def = env
         .current_mut()
